@@ -6,7 +6,8 @@
        (_cffi_include.h:385), with an evaluator [ceval] that gives them the meaning gcc gives
        them on an LP64 target: integer types are (signedness, width) with width 32, 64 or 128;
        the usual arithmetic conversions; decimal literals typed as gcc types them
-       (unsuffixed: int, long, then __int128 with a warning; suffix U: unsigned int, unsigned
+       (unsuffixed: int, long, then __int128 with a warning for 2^63..2^64-1 [observed: sizeof is 16];
+       suffix U: unsigned int, unsigned
        long; anything larger is outside C and evaluates to [None]);
        signed overflow of unary minus is undefined behaviour ([None]).
        Types narrower than int never reach the evaluator: every operand is either a
@@ -66,7 +67,7 @@ Definition lit_type (suffixU : bool) (n : Z) : option cty :=
     (if n <? 2 ^ 32 then Some u32 else if n <? 2 ^ 64 then Some u64 else None)
   else
     (if n <? 2 ^ 31 then Some s32 else if n <? 2 ^ 63 then Some s64
-     else if n <? 2 ^ 127 then Some s128 else None).
+     else if n <? 2 ^ 64 then Some s128 else None).
 
 Definition env := var -> option (cty * Z).
 
